@@ -604,6 +604,11 @@ def _make_plan(case, raw, rng, wd, *, full=False, init_req=None, container_size=
                     # still come back as supplied
                     data = b"".join(data[i:i + 2][::-1] for i in range(0, len(data), 2))
                     how = "own-swapped"
+                elif how == "own" and rng.random() < 0.15:
+                    # what a read-back of the FCB's flash sector looks like: a well-formed FCB followed by the rest of the
+                    # sector.  It is longer than the FCB slot: the merge refuses it, or places it without touching the others
+                    data = data + _payload(rng, core.pick(rng, [1, 0x100, 4096 - len(data)]))
+                    how = "own+sector-tail"
                 meta[name] = f"fcb:{how}"
         elif name == "xmcd":
             if want(0.7):
@@ -710,6 +715,8 @@ def _refusal_expected(raw, plan):
     for name, data in plan["supplied"].items():
         size = bimg_ref.FORMAT_SIZE.get(name)
         if name in OPAQUE and size and len(data) > size:
+            return True
+        if name in ("fcb", "fcb_xspi") and size and len(data) > size:
             return True
     return False
 
